@@ -126,6 +126,7 @@ def _plan(tier):
         P.append(("trial", dict(table="e2", n=3, default="five", molecular=False, with_disp=True), R))
         P.append(("trial", dict(table="e+e", n=3, default="none", molecular=True, with_disp=False), R))
         P.append(("trial", dict(table="e", n=3, default="none", molecular=False, with_disp=True), R))
+    P.append(("trial", dict(table="e", n=2, default="none", molecular=False, with_disp=True), (), "surviving-atoms-keep-their-labels"))
     return P
 
 
